@@ -197,7 +197,7 @@ func init() {
 	})
 	register(&PropSpec{
 		ID: "C05",
-		Explanation: "Decided: R-SIGNONFATAL (also here) - nothing reported on behalf of a signal can be step-fatal, computed flags included: a signal cannot end the Execute of its step. Decided: R-DECODERX same-turn clause - a request whose reply is matched by position is written under the mutex held at the read. Decided: R-DECODERX - every Decode on the connection's decoder is exclusive; R-CODEC - CBOR modes as wide as the schemas; R-PAIR - a result that has arrived is never overwritten. R-LOCKSET - for every struct with a mutex (ATP client, ATP server session, callable step) the guarded fields are inferred (accessed under " +
+		Explanation: "Decided: R-NONFATAL - the handler of error messages stops the read loop only where the step-fatal or server-fatal flag was found set or the payload did not decode; R-FREEFIRST - where a table of the server session decides whether a work start is taken (a method both looks a key up and inserts it), no delete on it comes after a call that can write a terminal message. Decided: R-SIGNONFATAL (also here) - nothing reported on behalf of a signal can be step-fatal, computed flags included: a signal cannot end the Execute of its step. Decided: R-DECODERX same-turn clause - a request whose reply is matched by position is written under the mutex held at the read. Decided: R-DECODERX - every Decode on the connection's decoder is exclusive; R-CODEC - CBOR modes as wide as the schemas; R-PAIR - a result that has arrived is never overwritten. R-LOCKSET - for every struct with a mutex (ATP client, ATP server session, callable step) the guarded fields are inferred (accessed under " +
 			"the mutex and mutable after construction; shared cbor encoders, the client's pending table, signal table and running flag are required to be guarded) and every " +
 			"access outside construction holds the mutex on all paths (must-lockset dataflow, helpers inherit the locks of all call sites, a goroutine started inside a " +
 			"critical section and joined before the unlock counts as inside). This is the structural part of 'never corrupted by interleaved writes / delivered to a different " +
@@ -205,6 +205,8 @@ func init() {
 		Assumptions: []string{"callers that obtain the raw codec through the exported Encoder()/Decoder() accessors are outside the premise",
 			"the 60 s send time-out arm of sendRuntimeMessage (transport stall) is outside the premise"},
 		Rules: []func(*Ctx){
+			func(c *Ctx) { c.ruleFreeFirst("R-FREEFIRST") },
+			func(c *Ctx) { c.ruleNonFatal("R-NONFATAL") },
 			func(c *Ctx) { c.ruleSignalNonFatal("R-SIGNONFATAL") },
 			func(c *Ctx) { c.ruleCodec("R-CODEC"); c.R.Floor("R-CODEC", 3) },
 			func(c *Ctx) { c.rulePair("R-PAIR") },
@@ -271,7 +273,7 @@ func init() {
 	})
 	register(&PropSpec{
 		ID: "C08",
-		Explanation: "Decided: R-SIGCHAN never-registered clause - every return of a client method that was given the caller's signal channel lies behind a hand-over of the channel, a close or a deferred one; R-WORKDONE step clause - a decoded work-done message becomes a result only where its step ID was compared with the run's step. Decided: R-DELIVER per-run deliveries - a result or step-fatal error that reaches no waiting call breaks the stream; R-SIGCHAN refusal clause - a run refused before registration has its signal channel closed; R-WORKDONE - output data is a map; R-RELOCK as in C06. Decided: R-STICKY - every failed read from the stream (and every failure of the handshake after the hello message) is remembered in the client's error field, which is never cleared, and a run is registered / a reply is read directly only where that field was found nil under the right mutex: later Execute calls fail instead of reading from the middle of a damaged stream; R-SIGCHAN - a close of a caller's signal channel cannot hit a send in flight (goroutine confinement, the state mutex, or the hand-over marker), goes with the removal of the table entry, and follows every end of a run (result stored, or pending entry removed without one). R-WORKDONE - success results only from work-done messages with an output ID and output data; R-CLIENTPANIC - no explicit panic reachable from the client's methods beyond two accepted invariants. R-DELIVER - every decode/unmarshal error in the client reaches the affected waiter(s) (result store + wake-up) or the caller's return value, " +
+		Explanation: "Decided: R-DECODEFIRST - every handler of the client that is handed the envelope of a message decodes its payload on every path to a return (a damaged message is not dropped as one that needs no attention); R-NONFATAL - an error report with neither flag set does not end the read loop. Decided: R-SIGCHAN never-registered clause - every return of a client method that was given the caller's signal channel lies behind a hand-over of the channel, a close or a deferred one; R-WORKDONE step clause - a decoded work-done message becomes a result only where its step ID was compared with the run's step. Decided: R-DELIVER per-run deliveries - a result or step-fatal error that reaches no waiting call breaks the stream; R-SIGCHAN refusal clause - a run refused before registration has its signal channel closed; R-WORKDONE - output data is a map; R-RELOCK as in C06. Decided: R-STICKY - every failed read from the stream (and every failure of the handshake after the hello message) is remembered in the client's error field, which is never cleared, and a run is registered / a reply is read directly only where that field was found nil under the right mutex: later Execute calls fail instead of reading from the middle of a damaged stream; R-SIGCHAN - a close of a caller's signal channel cannot hit a send in flight (goroutine confinement, the state mutex, or the hand-over marker), goes with the removal of the table entry, and follows every end of a run (result stored, or pending entry removed without one). R-WORKDONE - success results only from work-done messages with an output ID and output data; R-CLIENTPANIC - no explicit panic reachable from the client's methods beyond two accepted invariants. R-DELIVER - every decode/unmarshal error in the client reaches the affected waiter(s) (result store + wake-up) or the caller's return value, " +
 			"every decoded runtime message is handed to a handler, and a decoded result is delivered where the pending table is known to hold its run or else fails all waiters; R-MUSTPASS - every exit of the read loop has failed all waiters or found none, and cleared the running " +
 			"flag in that critical section, so later Execute calls start a new reader (which fails again on a dead stream); R-WG(c) - Close cancels before it waits. " +
 			"R-STRICTDEC - every CBOR decoding call in the client's methods uses the client's strict DecMode (unknown fields are errors), never the package-level cbor.Unmarshal / NewDecoder; R-DECODEEXIT - as in C07. NOT decided: which corruptions the CBOR decoder reports as errors; timing.",
@@ -288,6 +290,8 @@ func init() {
 			func(c *Ctx) { c.ruleRelock("R-RELOCK") },
 			func(c *Ctx) { c.ruleMustPass("R-MUSTPASS") },
 			func(c *Ctx) { c.ruleAtomic("R-ATOMIC"); c.R.Floor("R-ATOMIC", 4) },
+			func(c *Ctx) { c.ruleNonFatal("R-NONFATAL") },
+			func(c *Ctx) { c.ruleDecodeFirst("R-DECODEFIRST"); c.R.Floor("R-DECODEFIRST", 3) },
 			func(c *Ctx) { c.ruleWG("R-WG"); c.R.Floor("R-WG", 8) },
 		},
 	})
@@ -317,7 +321,7 @@ func init() {
 	})
 	register(&PropSpec{
 		ID: "C09",
-		Explanation: "Decided: R-TABLE - the hand-written meta-schema tables are evaluated from the package initialiser and compared with the Go structs they describe: " +
+		Explanation: "Decided: R-EMPTYROW - no row of the meta-schema whose struct field is a pointer is marked TreatEmptyAsDefaultValue (a pointer to the zero value is a value, not \"not set\"); R-KEEPKEY - entry-by-entry copies of a table of the receiver into a new map (ToStepSchema, SelfSerialize) keep the keys. Decided: R-TABLE - the hand-written meta-schema tables are evaluated from the package initialiser and compared with the Go structs they describe: " +
 			"every json-tagged field (inline-embedded structs flattened) has a row and every row a field (T1); the keys of the value-type one-of are exactly the TypeID " +
 			"constants and each dispatches to a struct whose TypeID() reports that key, the map-key one-of likewise (T3); the rows for the value bounds of the integer and " +
 			"float kinds are themselves unbounded, so every constructible schema can describe itself (T5); R-FORWARD - the loaders reach ApplySelf for every scope-typed " +
@@ -325,6 +329,8 @@ func init() {
 			"statement, CBOR/YAML passes, behavioural equality of original and rebuilt schema, string constraints (patterns / lengths) that the tables put on identifiers.",
 		Assumptions: []string{"the tables are built from literals and constructor calls (anything else fails the check as undecided)"},
 		Rules: []func(*Ctx){
+			func(c *Ctx) { c.ruleKeepKey("R-KEEPKEY") },
+			func(c *Ctx) { c.ruleEmptyRow("R-EMPTYROW"); c.R.Floor("R-EMPTYROW", 10) },
 			func(c *Ctx) { c.ruleLoadLink("R-LOADLINK") },
 			func(c *Ctx) { c.ruleRebuilt("R-REBUILT"); c.R.Floor("R-REBUILT", 5) },
 			func(c *Ctx) { c.ruleTable("R-TABLE") },
@@ -370,7 +376,7 @@ func init() {
 	})
 	register(&PropSpec{
 		ID: "C14",
-		Explanation: "Decided: R-KEYID - the scope's own table is handed down for linking only after every entry's ID was compared with its key; R-KINDSIB - a case distinction over TypeID() with cases for the reference and the object has one for the scope. Decided: R-TERM (data mode, as under C04) - recursion through references is driven by the input or bounded. Decided: R-FORWARD - ApplyNamespace of every container forwards to every child (json-tagged Serializable field, or map/slice of such; inside a loop for " +
+		Explanation: "Decided: R-FORWARD must-pass clause - ApplyNamespace / ValidateReferences of a container reach the call on a single child on every path on which they can report success. Decided: R-KEYID - the scope's own table is handed down for linking only after every entry's ID was compared with its key; R-KINDSIB - a case distinction over TypeID() with cases for the reference and the object has one for the scope. Decided: R-TERM (data mode, as under C04) - recursion through references is driven by the input or bounded. Decided: R-FORWARD - ApplyNamespace of every container forwards to every child (json-tagged Serializable field, or map/slice of such; inside a loop for " +
 			"collections) with the namespace string and the object table unchanged; the scope hands down its own table exactly for the self namespace and the external " +
 			"table otherwise; the reference links only when the namespace matches, to objects[its own ID]; ValidateReferences visits every child, returns its verdict, and " +
 			"succeeds for a reference iff it is linked; the loaders link all scopes. R-NSDEREF - code that runs while a namespace is being applied uses a child Object through a method that needs a linked reference (the RefSchema methods that panic on a nil cache) only where the child is known not to be an unlinked reference. NOT decided: the metamorphic 'inline the reference' equivalence over inputs; " +
@@ -435,7 +441,7 @@ func init() {
 			func(c *Ctx) { c.ruleTrim("R-TRIM") },
 			func(c *Ctx) { c.ruleGrammar("R-GRAMMAR"); c.R.Floor("R-GRAMMAR", 2) },
 			func(c *Ctx) { c.ruleOverflow("R-OVERFLOW"); c.R.Floor("R-OVERFLOW", 2) },
-			func(c *Ctx) { c.ruleSumAll("R-SUMALL"); c.R.Floor("R-SUMALL", 3) },
+			func(c *Ctx) { c.ruleSumAll("R-SUMALL"); c.R.Floor("R-SUMALL", 2) },
 		},
 	})
 	register(&PropSpec{
@@ -456,7 +462,7 @@ func init() {
 	})
 	register(&PropSpec{
 		ID: "C18",
-		Explanation: "Decided: R-ACCEPT - IsNil() and IsVariadic() of the handler consulted on every accepting path; R-CALL - a panic of the handler is caught. R-TYPEID - the handler's parameter and result types (values of reflect.Type.In/Out) influence acceptance only through identity comparison with a " +
+		Explanation: "Decided: R-ERRIDENT - every use of the package-level reflect.Type of error is an operand of == / != (Implements / AssignableTo would accept concrete error types as a handler\u0027s error result). Decided: R-ACCEPT - IsNil() and IsVariadic() of the handler consulted on every accepting path; R-CALL - a panic of the handler is caught. R-TYPEID - the handler's parameter and result types (values of reflect.Type.In/Out) influence acceptance only through identity comparison with a " +
 			"reflect.Type or through Kind(), never through their name/String or Implements/AssignableTo/ConvertibleTo; R-REFLECT - Handler.Type() is only reached after " +
 			"Kind() == Func was established (locally, by a callee's accepting return, or at every call site); R-DOM - the reflective handler call is dominated by " +
 			"len(arguments) == NumIn and is not in a loop; R-ERRPROV - every error returned by Call is a FunctionCallError constructed there, flagged function-reported exactly " +
@@ -464,6 +470,7 @@ func init() {
 			"argument type checking at call time.",
 		Rules: []func(*Ctx){
 			func(c *Ctx) { c.ruleTypeID("R-TYPEID") },
+			func(c *Ctx) { c.ruleErrIdent("R-ERRIDENT") },
 			func(c *Ctx) { c.ruleAccept("R-ACCEPT"); c.R.Floor("R-ACCEPT", 2) },
 			func(c *Ctx) { c.ruleHandlerKind("R-REFLECT"); c.R.Floor("R-REFLECT", 4) },
 			func(c *Ctx) { c.ruleFunctionCall("R-CALL") },
